@@ -84,6 +84,22 @@ fn main() {
             let timeout: u64 = args.get(5).map(|s| s.parse().unwrap()).unwrap_or(20);
             c08::run(path, stride, fits, timeout)
         }
+        "svdcheck" => {
+            // reproduces known finding D4 (upstream nalgebra SVD inaccuracy) on its listed example matrices
+            use nalgebra::DMatrix;
+            let mats: Vec<(&str, DMatrix<f64>)> = vec![
+                ("3x3 nearly equal singular values", DMatrix::from_row_slice(3, 3, &[4., -1., 1., 1., 4., -2., 2., 1., 1.])),
+                ("5x2 rank one", DMatrix::from_row_slice(5, 2, &[-1., -2., -2., -4., -2., -4., 1., 2., 2., 4.])),
+            ];
+            let mut rep = report::Report::new();
+            for (name, m) in mats {
+                let svd = nalgebra::SVD::new(m.clone(), true, true);
+                let rec = svd.u.as_ref().unwrap() * DMatrix::from_diagonal(&svd.singular_values) * svd.v_t.as_ref().unwrap();
+                let err = (rec - &m).iter().fold(0.0f64, |a, v| a.max(v.abs()));
+                rep.notes.push(format!("{name}: singular values {:?} reconstruction error {err:e}", svd.singular_values.as_slice()));
+            }
+            rep
+        }
         "proxy" => fittrace::run_proxy(args.get(2).map(|s| s.parse().unwrap()).unwrap_or(100)),
         "pairs" => fittrace::run_pairs(args.get(2).map(|s| s.parse().unwrap()).unwrap_or(100)),
         "parjac" => {
